@@ -214,7 +214,9 @@ def gen_plan(rng, tier, idx, opts):
     for _ in range(2):
         g = {}
         for pn in pnames:
-            g[pn] = sorted(rng.sample(range(0, 8), rng.randint(1, 4)))
+            g[pn] = rng.sample(range(0, 8), rng.randint(1, 4))
+            if rng.random() < 0.5:
+                g[pn].sort()                      # sweeps are often, but not always, given in ascending order
         grids.append(g)
     sets = []
     for g in grids:
